@@ -263,6 +263,16 @@ def run_case(seed, i, tier):
     else:
         kind, name, data, instants = fixture_case(rng)
         base = ["--tz-offset", "+00:00"]
+        if kind == "journal" and rng.random() < 0.7:
+            # the renderings differ in how many lines an entry takes and in whether some of them are empty (export ends
+            # every entry with one, verbose shows multi-line values)
+            rs = ("export", "export", "verbose", "verbose", "cat", "short-iso", "short-precise", "short-full")
+            if dec.psep == "" and dec.dt_off is not None:
+                # no separator after the datetime field: keep to renderings whose lines begin with a letter, or where the
+                # field ends would be a guess (a '%s' field followed by a line that starts '2023-12-15 ...')
+                rs = ("export", "verbose")
+            base += ["--journal-output", rng.choice(rs)]
+            cr.probes["journal_rendering_" + base[-1]] += 1
         und_scn = core.Scenario([core.FileSpec(name, data, 1600000000)], ["--color", "never"] + base + [name], None, tz_env)
         und = core.execute(und_scn, plan)
         dec_scn = core.Scenario([core.FileSpec(name, data, 1600000000)], argv + base + [name], None, tz_env)
